@@ -141,7 +141,7 @@ def r3_selection(ctx):
         if o.kind == 'return' and is_ok_result(o.value):
             ap = [e for e in o.events if e[0] == 'call' and e[1] == AP]
             gen = [e for e in o.events if e[0] == 'call' and e[1] == GEN]
-            fnd = [e for e in o.events if e[0] == 'call' and e[1].endswith('Iterator>::find')]
+            fnd = [e for e in o.events if e[0] == 'call' and (e[1].endswith('::find') and 'Iterator' in e[1])]
             if ap and gen and fnd:
                 ok = len(gen) == 1 and len(fnd) == 1 and o.events.index(gen[0]) < o.events.index(fnd[0]) and \
                     gen[0][2][1] == ('ref', ('fld', ('der', ('p', 1)), 'board')) and \
@@ -165,12 +165,12 @@ def r3_selection(ctx):
     for o in outs:
         if o.kind == 'return' and is_ok_result(o.value):
             en = [e for e in o.events if e[0] == 'call' and e[1] == ENUM]
-            fnd = [e for e in o.events if e[0] == 'call' and e[1].endswith('Iterator>::find')]
+            fnd = [e for e in o.events if e[0] == 'call' and (e[1].endswith('::find') and 'Iterator' in e[1])]
             ap = [e for e in o.events if e[0] == 'call' and e[1] == AP]
             if en and fnd and ap:
                 ok = len(en) == 1 and len(fnd) == 1 and o.events.index(en[0]) < o.events.index(fnd[0]) and \
                     en[0][2][0] == ('ref', ('fld', ('der', ('p', 1)), 'board')) and \
-                    'turn' in show(en[0][2][1]) and any(s[0] == 'call' and s[1].endswith('Iterator>::find') for s in subterms(ap[0][2][0]))
+                    'turn' in show(en[0][2][1]) and any(s[0] == 'call' and (s[1].endswith('::find') and 'Iterator' in s[1]) for s in subterms(ap[0][2][0]))
     ctx.ob(rule, name, 'plays the first (move, label) pair of the side to move whose label equals the input', ok, expected='enumerate(..).iter().find(|m| m.1 == input).0')
     pred_ok, found = False, None
     fc = find_closures(outs)
